@@ -34,28 +34,32 @@ Theorem C03_blocks_never_debit_users :
 Proof. exact blocks_never_debit_users. Qed.
 Print Assumptions C03_blocks_never_debit_users.
 
-(* ---- pay-outs keyed by the recorded owner: undelegations (matured / fixed), rewards, tips
+(* ---- pay-outs keyed by the recorded owner: undelegations (single / all matured), rewards, tips
    (request, cancel, handle), dApp bonds, collective bonds, bank send *)
 Theorem C03_claim_pays_recorded_owner :
   forall h, In h code_handlers_ok -> no_foreign_debit h.
 Proof. exact claim_pays_recorded_owner. Qed.
 Print Assumptions C03_claim_pays_recorded_owner.
 
-(* ---- the full statement fails for three handlers of the unchanged tree (witnesses replayed on
-   the real code by harness/cmd/c03) ... *)
-Theorem C03_claim_undelegation_refuted : ~ no_foreign_debit h_claim_undelegation.
-Proof. exact claim_undelegation_refuted. Qed.
-Print Assumptions C03_claim_undelegation_refuted.
+(* ---- ClaimUndelegation as the tree has it (owner compared with the sender): full strength *)
+Theorem C03_claim_undelegation_no_foreign_debit : no_foreign_debit h_claim_undelegation.
+Proof. exact claim_undelegation_safe. Qed.
+Print Assumptions C03_claim_undelegation_no_foreign_debit.
+(* the owner comparison is necessary: the variant without it is refuted (statement about that
+   variant only -- it is not the code) *)
+Theorem C03_claim_undelegation_unguarded_refuted : ~ no_foreign_debit h_claim_undelegation_unguarded.
+Proof. exact claim_undelegation_unguarded_refuted. Qed.
+Print Assumptions C03_claim_undelegation_unguarded_refuted.
+
+(* ---- the full statement fails for two handlers of the tree (witnesses replayed on the real
+   code by harness/cmd/c03; known findings) ... *)
 Theorem C03_join_verifier_refuted : ~ no_foreign_debit h_l2_join_verifier.
 Proof. exact join_verifier_refuted. Qed.
 Print Assumptions C03_join_verifier_refuted.
 Theorem C03_custody_reward_refuted : ~ no_foreign_debit h_custody_reward.
 Proof. exact custody_reward_refuted. Qed.
 Print Assumptions C03_custody_reward_refuted.
-(* ... and holds once the owner is compared / the signer is the debited side *)
-Theorem C03_claim_undelegation_partial : no_foreign_debit h_claim_undelegation_fixed.
-Proof. exact claim_undelegation_fixed_safe. Qed.
-Print Assumptions C03_claim_undelegation_partial.
+(* ... and holds once the signer is the debited side *)
 Theorem C03_join_verifier_partial : no_foreign_debit h_l2_join_verifier_fixed.
 Proof. exact join_verifier_fixed_safe. Qed.
 Print Assumptions C03_join_verifier_partial.
@@ -91,7 +95,6 @@ Print Assumptions C03_rotation_requires_secret_or_half_rr.
    Gen/DebitSites.v and this theorem no longer checks. *)
 Definition audited_sites : list string := [
   (* findings (known-findings.txt) *)
-  "multistaking.ClaimUndelegation/ClaimUndelegation/module:multistaking->signer:Sender";     (* no owner check: pending-fix *)
   "layer2.JoinDappVerifierWithBond/JoinDappVerifierWithBond/field:Interx->module:layer2";    (* bond taken from msg.Interx *)
   "custody.ApproveTransaction/sendReward/field:TargetAddress->signer:FromAddress";           (* reward to any caller *)
   "custody.DeclineTransaction/sendReward/field:TargetAddress->signer:FromAddress";           (* reward to any caller *)
@@ -151,9 +154,9 @@ Print Assumptions C03_chk_sound_coins.
 
 (* ---- non-vacuity: an accepted claim by the owner, the same claim by a stranger rejected *)
 Example C03_nonvacuous_claim :
-  exists s', exec h_claim_undelegation_fixed (mkMsg [1] [] [7] [] [true]) w_state_undel = Ok s'
+  exists s', exec h_claim_undelegation (mkMsg [1] [] [7] [] [true]) w_state_undel = Ok s'
              /\ bal s' 1 "ukex" = 1500 /\ claims s' = [].
 Proof. exact nonvacuous_claim. Qed.
 Example C03_nonvacuous_rejected :
-  exec h_claim_undelegation_fixed w_msg_undel w_state_undel = Err "not owner".
+  exec h_claim_undelegation w_msg_undel w_state_undel = Err "not owner".
 Proof. exact nonvacuous_rejected. Qed.
